@@ -30,7 +30,8 @@ type c08Pol struct {
 }
 
 type c08Op struct {
-	K   int   `json:"k"`   // 0 acquire, 1 record
+	K   int   `json:"k"`   // 0 acquire, 1 record, 2 burst: N successive RecordResult(id, no error, 0) at this clock reading
+	N   int   `json:"n,omitempty"`
 	Dt  int64 `json:"dt"`  // clock advance (ns) before the op
 	Ref int   `json:"ref"` // record: index of the earlier acquire whose returned id is passed back; -1: current stateID + Raw
 	Raw int64 `json:"raw"`
@@ -107,7 +108,13 @@ func (e *c08Exec) step(op c08Op) (flag int64) {
 				id = uint32(int64(e.cb.stateID) + op.Raw)
 			}
 			used = int64(id)
-			e.cb.RecordResult(id, op.Err, time.Duration(op.Dur))
+			if op.K == 2 {
+				for j := 0; j < op.N; j++ {
+					e.cb.RecordResult(id, false, 0)
+				}
+			} else {
+				e.cb.RecordResult(id, op.Err, time.Duration(op.Dur))
+			}
 		}
 	}()
 	e.ids = append(e.ids, retID)
